@@ -2,6 +2,7 @@
 import numpy as np
 import vlib
 from vlib import cz, czl, tolq
+from props._loopir import loopir_tie, TRUSTED_LINE
 
 LEVEL_TEXT = ("Coq theorems (abstract ordered field with conjugation, every length N, every order p, every data vector) about the "
               "model of arcovar/modcovar = corrmtx('covariance'|'modified') + lstsq(-Xc, X1) + the code's post-processing: the data "
@@ -13,11 +14,21 @@ LEVEL_TEXT = ("Coq theorems (abstract ordered field with conjugation, every leng
               "polynomial and its roots are exactly the p exponentials. lstsq is a universally quantified solver meeting "
               "'normal equations hold'; an executable certified instance (Gaussian elimination + exact re-check) runs in the "
               "correspondence. Tie: exact in-Coq correspondence of arcovar/modcovar/pcovar.rho/pmodcovar.rho/corrmtx on dyadic inputs, "
-              "search on the implementation with oracles built from scratch (own data matrix, QR), Marple recursions compared as a test.")
-TRUSTED = ["Coq 8.16.1 kernel + vm_compute", "hand-written model coq/Model/Ls.v, coq/Model/Corr.v (tie = correspondence run)",
+              "search on the implementation with oracles built from scratch (own data matrix, QR), Marple recursions compared as a test. "
+              "Loop-IR tie of the Marple routines: arcovar_marple and modcovar_marple are translated from the snapshot source on every run (fail-closed "
+              "Python-ast -> IR translator) and the IR programs are evaluated inside Coq at QcC with zero tolerance against the hand model "
+              "Model/CovarMarple.v (outcome constructor, every array entry, both variances, the appended variance lists) and, independently of the hand "
+              "model, against the exact least-squares model (coefficients and per-sample minimum; backward predictor too for arcovar_marple); for "
+              "orders 0 and 1 of both routines (one full pass of the main loops) and for the argument check of arcovar_marple, run = hand model is a "
+              "THEOREM about the generated programs, for all inputs (Proofs/LoopIRMarple0.v, claimed only while the regenerated text is the one proved about).")
+TRUSTED = ["Coq 8.16.1 kernel + vm_compute", "hand-written model coq/Model/Ls.v, coq/Model/Corr.v (tie = correspondence run)", TRUSTED_LINE,
            "scipy.linalg.lstsq is specified (returns a solution of the normal equations), not verified; numpy QR/SVD in the search oracles",
            "Python harness"]
-UNPROVED = ["arcovar_marple / modcovar_marple equal the least-squares solution and e/(N-p), e/(2(N-p)): TEST only — their executable model (Model/CovarMarple.v, tied to the code by correspondence) is compared with the exact LS model at zero tolerance on every generated case, and the implementation is compared in the search (tolerance 1e-11*cond^2)"]
+UNPROVED = ["arcovar_marple / modcovar_marple equal the least-squares solution and e/(N-p), e/(2(N-p)) for orders >= 1: exact TEST only, not a theorem — (i) the loop-IR "
+            "programs regenerated from the source on this run and (ii) the hand model Model/CovarMarple.v are each compared with the exact LS model at zero "
+            "tolerance on every generated case (orders 1..4, N <= 14), the IR program is compared with the hand model at zero tolerance, and the "
+            "implementation is compared in the search (tolerance 1e-11*cond^2); proved for the generated programs (run = hand model, all inputs): orders 0 and 1 of both "
+            "routines and the assertion order <= len(x) of arcovar_marple (Proofs/LoopIRMarple0.v); NOT proved: run = hand model at orders >= 2"]
 ASSUMPTIONS = ["exact arithmetic", "N - p >= p and full column rank where uniqueness / exact recovery is claimed",
                "lstsq returns a solution of the normal equations (always true of a least-squares solver, also when rank-deficient)"]
 RULE = ("exact in Coq: real/complex low-bit dyadic data (noise, 4th-root-of-unity exponentials with and without noise, scaled by 2^k), N=4..16, "
@@ -392,6 +403,11 @@ def run(ctx):
     for i in ctx.coq_cases('c14_marple', PRE, fcases, shard=30,
                            descr='arcovar_marple / modcovar_marple vs Model.CovarMarple at QcC (even indices), and TEST: the Marple model equals the exact least-squares model with zero tolerance (odd indices)'):
         ctx.corr_disagreement('%s [%s]' % (fmeta[i]['function'], fmeta[i]['what']), i, fmeta[i])
+
+    # loop-IR tie: arcovar_marple / modcovar_marple are translated from the snapshot source on this run; the IR programs are evaluated
+    # inside Coq (QcC, zero tolerance) against the hand model Model/CovarMarple.v AND against the exact least-squares model, and
+    # (tolerance) against the implementation
+    loopir_tie(ctx, ['arcovar_marple', 'modcovar_marple'])
 
     mcases = []; mmeta = []
     for _ in range(ctx.q(40, 200)):
